@@ -8,7 +8,7 @@ PROPERTIES = ["C02"]
 MANIFEST = {
     "C02": {
         "technique": "Lean 4 proof: pointer-level model of HashMap/HashSet/PoolMap (cell back-pointers, nextCell chains, prev/next list with owned end sentinel, free list, 4-item blocks) simulated by a chain-list model, which refines an insertion-ordered association list, for every capacity, hash function and op list (induction over op lists) + differential correspondence of both models vs the real headers",
-        "text": "Theorems over all operation histories, all capacities >= 1 and all hash functions (hence every collision pattern) of the Lean models: results, iteration, equality and returned iterators equal those of the association-list specification; chains partition the live items by hash % capacity; cell back-pointers designate the referring cell; an existing key keeps its position (HashMap updates the value, HashSet/PoolMap untouched); String hash reads stay in bounds. The models are tied to the current HashMap.hpp/HashSet.hpp/PoolMap.hpp on every run by executing identical op lines on the real code and on both models in lock-step (exhaustive small scope + random histories, capacities 0,1,2,3,8,500, five hash functions incl. constant, ASan/UBSan, forward/backward traversal, white-box comparison of every bucket chain, the free list and the order list as canonical item ids) and by an independent Python association-list reference.",
+        "text": "Theorems over all operation histories, all capacities >= 1 and all hash functions (hence every collision pattern) of the Lean models: results, iteration, equality and returned iterators equal those of the association-list specification; chains partition the live items by hash % capacity; cell back-pointers designate the referring cell; an existing key keeps its position (HashMap updates the value, HashSet/PoolMap untouched); String hash reads stay in bounds. The models are tied to the current HashMap.hpp/HashSet.hpp/PoolMap.hpp on every run by executing identical op lines on the real code and on both models in lock-step (exhaustive small scope + random histories, capacities 0,1,2,3,8,500, five hash functions incl. constant, ASan/UBSan, forward/backward traversal, white-box comparison of every bucket chain, the free list and the order list as canonical item ids; a second build with nstd String keys and the library's hash(const String&) whose key texts collide; a third build with -O2 and no sanitizers) and by an independent Python association-list reference.",
         "note": "Trusted: Lean kernel + the three standard axioms; hand translation of the headers into the pointer-level model PtrModel.lean (validated by the correspondence run, not proved). Abstractions of that model: one node heap per table (swap exchanges heaps as the code exchanges `blocks`), item addresses are block*4+slot numbers, loops carry a fuel argument (proved sufficient: no reachable fault), keys/values are naturals with = (hash/== of the key type consistent), allocation never fails, destructors/constructors of elements are no-ops. Self-assignment/self-append (a = a) and element life-cycle are outside (property C04). hash(const String&) value is modelled for 64-bit usize and checked by the correspondence only; its in-bounds theorem is about the three indices.",
         "design_ref": "DESIGN.md 3/C02",
     }
@@ -180,10 +180,10 @@ MODES = [0, 1, 2, 3, 4]
 KINDS = ["map", "set", "pool"]
 
 
-def gen_history(rng, length, kind=None):
+def gen_history(rng, length, kind=None, mode=None):
     kind = kind or rng.choice(KINDS)
     dom = rng.choice([3, 4, 6, 8])
-    h = [f"cfg {kind} {rng.choice(MODES)} {dom}"]
+    h = [f"cfg {kind} {rng.choice(MODES) if mode is None else mode} {dom}"]
     for t in (0, 1):
         if rng.random() < 0.85:
             h.append(f"new {t} {rng.choice(CAPS)}")
@@ -369,11 +369,57 @@ def check(ctx):
         diffs = differential_mp(ctx, harness, C.driver_path(DRIVER), hs, 60 if ctx.tier == "quick" else 240)
         ctx.log(f"{len(hs)} histories, {ctx.cov['evaluations']} op lines, {len(diffs)} disagreement(s)")
         C.report_diffs(ctx, diffs, harness, C.driver_path(DRIVER), reference, C.default_eq, "hash-ops")
+        extra_streams(ctx, hs)
     finally:
         try:
             harness.unlink()
         except OSError:
             pass
+
+
+def extra_streams(ctx, hs):
+    """(1) String keys: HashMap<String,int> / HashSet<String> / PoolMap<String,int> with the library's own
+    hash(const String&) and String::operator== (hash mode 5 of the model = hashString of the key text; the key texts
+    collide in three classes).  (2) the int-key harness built with -O2 and without sanitizers on the random histories:
+    behaviour must not depend on the optimisation level (reads of indeterminate fields, lifetime assumptions)."""
+    quick = ctx.tier == "quick"
+    rng = ctx.rng
+    n = 3000 if quick else 60000
+    hstr = None
+    try:
+        hstr = C.build_harness(ctx, "hash_str", SOURCES, extra_flags=["-DKEY_STRING"])
+        if hstr is not None:
+            ss = [gen_history(rng, rng.choice([5, 10, 20, 40]), mode=5) for _ in range(n)]
+            # the enumerated histories of configuration 0, with hash mode 5
+            ss += [[l if not l.startswith("cfg ") else " ".join(l.split()[:2] + ["5", "4"]) for l in h]
+                   for h in hs if h and h[0].startswith("cfg ") and h[0].split()[2] == "0" and len(h) <= 11][:20000 if quick else 100000]
+            before = ctx.cov["evaluations"]
+            diffs = differential_mp(ctx, hstr, C.driver_path(DRIVER), ss, 60 if quick else 240)
+            ctx.log(f"string keys: {len(ss)} histories, {ctx.cov['evaluations'] - before} op lines, {len(diffs)} disagreement(s)")
+            ctx.cov["string_key_histories"] = len(ss)
+            C.report_diffs(ctx, diffs, hstr, C.driver_path(DRIVER), reference, C.default_eq, "hash-ops-string-keys")
+    finally:
+        if hstr is not None:
+            try:
+                hstr.unlink()
+            except OSError:
+                pass
+    hopt = None
+    try:
+        hopt = C.build_harness(ctx, "hash_o2", SOURCES, extra_flags=["-O2"], sanitize=False)
+        if hopt is not None:
+            oo = [h for h in hs if len(h) > 12][:n * 2]
+            before = ctx.cov["evaluations"]
+            diffs = differential_mp(ctx, hopt, C.driver_path(DRIVER), oo, 60 if quick else 240)
+            ctx.log(f"-O2 build: {len(oo)} histories, {ctx.cov['evaluations'] - before} op lines, {len(diffs)} disagreement(s)")
+            ctx.cov["o2_build_histories"] = len(oo)
+            C.report_diffs(ctx, diffs, hopt, C.driver_path(DRIVER), reference, C.default_eq, "hash-ops-O2")
+    finally:
+        if hopt is not None:
+            try:
+                hopt.unlink()
+            except OSError:
+                pass
 
 
 def replay(ctx, path):
